@@ -445,6 +445,7 @@ pub fn replay_main(spec: &CheckSpec, run: RunFn, path: &Path) -> i32 {
     for v in &out.violations {
         if v.clause == want_clause && v.symptom == want_symptom {
             println!("REPRODUCED clause={} symptom={} detail={}", v.clause, v.symptom, v.detail);
+            println!("features={:?}", v.features);
             println!("VIOLATION property={} replay={}", spec.prop, path.display());
             return 1;
         }
